@@ -333,15 +333,15 @@ theorem applyImp_spec {env : Env} (he : EnvOk env) {s : St} (hi : Inv env s) (id
     Inv env (applyImp env s id imp).1 ∧
     (∀ x, x ≠ (s.mockers id).target → (applyImp env s id imp).1.text x = s.text x) ∧
     ((applyImp env s id imp).2 = none →
-      (applyImp env s id imp).1.text (s.mockers id).target = overwrite (env.pristine (s.mockers id).target) (jumpTo (impAddr env imp))) ∧
+      (applyImp env s id imp).1.text (s.mockers id).target = overwrite (env.pristine (s.mockers id).target) (jumpTo (dest env s id imp))) ∧
     ((applyImp env s id imp).2 ≠ none → (applyImp env s id imp).1.text (s.mockers id).target = env.pristine (s.mockers id).target) ∧
     (applyImp env s id imp).1.cache = s.cache ∧ (applyImp env s id imp).1.keys = s.keys ∧
     (∀ j, ((applyImp env s id imp).1.mockers j).target = (s.mockers j).target) ∧
     ((applyImp env s id imp).2 = none → ((applyImp env s id imp).1.mockers id).canceled = false) := by
-  obtain ⟨r1, r2, r3, r4, r5, r6, _, r8⟩ := replaceFunc_spec he hi (s.mockers id).target (impAddr env imp) (s.mockers id).origin
+  obtain ⟨r1, r2, r3, r4, r5, r6, _, r8⟩ := replaceFunc_spec he hi (s.mockers id).target (dest env s id imp) (s.mockers id).origin
   unfold applyImp
   simp only []
-  cases hres : replaceFunc env s (s.mockers id).target (impAddr env imp) (s.mockers id).origin with
+  cases hres : replaceFunc env s (s.mockers id).target (dest env s id imp) (s.mockers id).origin with
   | mk s1 res =>
     rw [hres] at r1 r2 r3 r4 r5 r6 r8
     simp only [] at r1 r2 r3 r4 r5 r6 r8
